@@ -728,6 +728,9 @@ where
                                     if !buffered_lcs.remove(&lc2.id) && moved_msgs != lc2_msgs {
                                         println!("merged lc was not in buffered_lcs or its msgs not buffered anymore!\n {:?}\n {:?} msg #{}, moved_msgs={} vs {}", prev_lc, lc2, last_msg_index, moved_msgs, lc2_msgs);
                                     }
+                                    // lc2 might have been confirmed (and thus added to the lcs_w map) already. As it's invalid now
+                                    // we remove it (visible with the next refresh) so that it is not listed as a lifecycle.
+                                    lcs_w.empty(lc2.id);
                                     remove_last_lc = true;
                                 } else {
                                     // TODO silence this output for now! (fails e.g. with l./e./230726_dltp logs!) println!("merge needed but not all msgs buffered anymore! (todo!):\n {:?}\n {:?} msg #{}", prev_lc, lc2, last_msg_index);
